@@ -143,7 +143,7 @@ f3!(f3_commit_m1_k1_s0_a1_d0, 1, 1, 0, 1, 0, 0, 5, usize::MAX);
 f3!(f3_commit_m1_k1_s900_a16_d3, 1, 1, 900, 16, 3, 448, 5, usize::MAX);
 // K = 2: previous chunks 448 + 960
 f3!(f3_commit_m1_k2_s700_a8_d1, 1, 2, 700, 8, 1, 600, 5, usize::MAX);
-f3!(f3_commit_m16_k2_s700_a32_d1, 16, 2, 700, 32, 1, 960, 5, usize::MAX);
+f3!(f3_commit_m16_k2_s700_a32_d1, 16, 2, 700, 32, 1, 96, 5, usize::MAX);
 // K = 0: chunk-less arena, limit None or >= 448
 f3!(f3_commit_m1_k0_s5_a1_d1, 1, 0, 5, 1, 1, 0, 4, usize::MAX);
 #[kani::proof]
